@@ -42,6 +42,16 @@ class Info:
     __repr__ = __str__
 
 
+class _NoInfo:
+    """held/ exists but its info file is gone."""
+
+    def __repr__(self):
+        return "<held/ without info>"
+
+
+NOINFO = _NoInfo()
+
+
 class EnvFS:
     def __init__(self, cx, held=None, interfere=0, faults=0, break_ours=False):
         self.cx = cx
@@ -72,11 +82,13 @@ class EnvFS:
         return self.info_cls(nonce, dead, "foreign%d" % self.n)
 
     def _is_ours(self, info):
-        return info is not None and self.cx.truth(info.nonce == OUR_NONCE)
+        return info is not None and info is not NOINFO and self.cx.truth(info.nonce == OUR_NONCE)
 
     def _environment_step(self):
         if self.interfere_budget <= 0:
             return
+        if self.held is NOINFO:
+            return                    # a half-released lock: nobody else can take or release it
         ours = self._is_ours(self.held)
         if ours and not self.break_ours:
             return                    # nobody breaks the lock of a live holder
@@ -133,8 +145,9 @@ class EnvFS:
         elif a.endswith("/held"):
             if self.held is None:
                 raise NoSuchFile(a)
-            self.removed.append((self.held, self.last_peek))
-            self.dirs[b] = self.held
+            if self.held is not NOINFO:
+                self.removed.append((self.held, self.last_peek))
+            self.dirs[b] = None if self.held is NOINFO else self.held
             self.held = None
             self.log.append(("rename_from_held", b))
         else:
@@ -144,7 +157,7 @@ class EnvFS:
         self._before("get")
         from dromedary.errors import NoSuchFile
         if path.endswith("held/info"):
-            if self.held is None:
+            if self.held is None or self.held is NOINFO:
                 self.last_peek = "absent"
                 raise NoSuchFile(path)
             self.last_peek = self.held
@@ -156,8 +169,13 @@ class EnvFS:
 
     def delete(self, path):
         self._before("delete")
+        from dromedary.errors import NoSuchFile
         d = path.rsplit("/", 1)[0]
-        if d in self.dirs:
+        if path.endswith("held/info"):
+            if self.held is None or self.held is NOINFO:
+                raise NoSuchFile(path)
+            self.held = NOINFO            # held/ still exists, but without holder information
+        elif d in self.dirs:
             self.dirs[d] = None
         self.log.append(("delete", path))
 
